@@ -345,7 +345,8 @@ int main(int argc, char** argv)
     if (!CheckAlphabet(w)) return 2;
 
     // message alphabets
-    const std::vector<std::string> A_BASE = {"tx:valid", "tx:script", "tx:amount", "tx:nonstd", "tx:orphan", "tx:conflict", "tx:oversized", "tx:stripped", "tx:undecodable",
+    // (order = exploration order: the orphan-then-parent sequence comes first so that a deadline on a loaded machine does not cut it off)
+    const std::vector<std::string> A_BASE = {"tx:orphan", "tx:valid", "tx:script", "tx:amount", "tx:nonstd", "tx:conflict", "tx:oversized", "tx:stripped", "tx:undecodable",
                                              "block:mutated", "block:badconnect", "block:badpow", "block:valid", "headers:badpow", "headers:noncont", "cmpct:badconnect"};
     std::vector<std::string> A_FULL = A_BASE;
     for (const char* k : {"tx:lowfee", "tx:trailing", "tx:premature", "cmpct:badpow"}) A_FULL.push_back(k);
